@@ -925,11 +925,17 @@ func (c *control) getEFGarg(ff *floatFormatter) {
 		if ff.neg = num < 0.0; ff.neg {
 			num = -num
 		}
-		ff.exp = int(math.Floor(math.Log10(num)))
+		if num != 0.0 {
+			ff.exp = int(math.Floor(math.Log10(num)))
+		}
 		ff.digits = strconv.AppendFloat(nil, num, 'e', -1, 64)
 		ff.digits = ff.digits[:bytes.IndexByte(ff.digits, 'e')]
-		copy(ff.digits[1:], ff.digits[2:])
-		ff.digits = ff.digits[:len(ff.digits)-1]
+		if 1 < len(ff.digits) {
+			// Remove the decimal point. A number with one significant
+			// digit such as 2.0 or 0.5 has none.
+			copy(ff.digits[1:], ff.digits[2:])
+			ff.digits = ff.digits[:len(ff.digits)-1]
+		}
 		ff.exp -= len(ff.digits) - 1
 	default:
 		p := *slip.DefaultPrinter()
